@@ -81,6 +81,15 @@ CLAIMS = {
         "viewport_to_world_no/zo (also composed through the real code) and picking_region is executed in both layouts on exact rationals (random small-integer pairs and rigid-view x real-projection "
         "pairs), recorded and recomputed by TLC; unprojected points are projected again on the specification and the pick matrix is tested against its axiom."),
   design="§6 C10, §12"),
+ "C11": dict(
+  technique="TLA+ spec of the spatial vector operators with their laws model-checked by TLC over Z_P; calls recorded from the real code on exact rationals validated by TLC trace validation over the ordered field of rationals (square roots validated by what they satisfy)",
+  text=("TLC checks on the specification that the cross product is bilinear, anticommutative, orthogonal to its operands with squared length |a|^2|b|^2-(a.b)^2, that reflection about a unit normal is "
+        "a length-preserving involution, that refraction obeys Snell's law with a unit result and that determine_side is the antisymmetric, translation-invariant 2D cross product. For all nine "
+        "spatial vector types (dimensions 2 to 64) the real code is executed on exact rationals and every result is validated by TLC in the ordered field of rationals: dot/magnitude_squared/"
+        "distance_squared/reflected/cross/determine_side/areas/homogenised recomputed; magnitude, distance and the four normalisation forms validated as m^2=|v|^2, m>=0, m*unit=v, |unit|=1 (try_normalized "
+        "refusing only the zero vector, float threshold classes); refraction incl. total internal reflection and the critical angle; face_forward for negative/zero/positive dot; angle_between as a "
+        "token angle in [0,pi] with the right cosine, and in degrees on right/straight/zero angles; Vec3 slerp hitting its ends and interpolating lengths linearly (also clamped)."),
+  design="§6 C11, §12"),
  "C12": dict(
   technique="TLA+ spec (VekLerp, VekOps!LerpInt) with its laws model-checked by TLC; TLC-emitted integer tables replayed into the real code (spec->code); generic/quaternion/Transform/Transition interpolation recorded from the code and validated by TLC (code->spec)",
   text=("TLC checks on the specification that the fast and precise formulas agree, hit the endpoints, are affine in the factor and extrapolate, that clamped = unclamped o clamp01, that the "
